@@ -136,6 +136,16 @@ func (d *Driver) Token(i int) string {
 	return ""
 }
 
+// SessionFacts reports what session context i learned from the responder: the TO0/TO1 nonce (from 21/31) and the
+// ProveDevice nonce (from 61). Used to state, outside the driver, what a proof for that session must contain.
+func (d *Driver) SessionFacts(i int) (nonce protocol.Nonce, hasNonce bool, proveDv protocol.Nonce, has61 bool) {
+	c := d.sess(i)
+	if c == nil {
+		return nonce, false, proveDv, false
+	}
+	return c.nonce, c.hasNonce, c.proveDv, c.has61
+}
+
 func (d *Driver) sess(i int) *sess {
 	if i < 0 || i >= len(d.ss) {
 		return nil
